@@ -62,7 +62,10 @@ Issue == \E d \in Dlgs : IssueOf(d)
 
 MissingLink == [missing |-> TRUE, iss |-> "A", aud |-> "A", sub |-> "A", cmd |-> TopCmd, pol |-> <<>>, nbf |-> -1, exp |-> -1]
 
-Proofs == UNION {[1..k -> store \cup {MissingLink}] : k \in 0..MaxLen}
+\* a reference to the content of d under ANOTHER CID (same digest, other codec / CID version): nothing is stored under it
+AliasOf(d) == [d EXCEPT !.missing = TRUE]
+
+Proofs == UNION {[1..k -> store \cup {MissingLink} \cup {AliasOf(d) : d \in store}] : k \in 0..MaxLen}
 
 Invoke == /\ v = Idle
           /\ \E p \in Proofs : /\ links' = p
